@@ -5,7 +5,7 @@ Line-protocol driver for the C12 `Exec` model (`lake build c12drv`). Several mac
 side (one per simulated validator), each with its own `Env`.
 
 Requests (numbers decimal, rounds may be negative, ids `nil` or decimal):
-  new  <mid> <node> <height> <total> <rot> <validMod> <validRem> <valBase> <valStep> <propMul> <powers,> <proposers,> <altTotal> <altPowers,> <shipped 0|1>
+  new  <mid> <node> <height> <total> <rot> <validMod> <validRem> <valBase> <valStep> <propMul> <powers,> <proposers,> <altTotal> <altPowers,> <shipped: 0 = off, 1+k = mock shape with power k for non-members>
   sync <mid> <h> <r> <sender> <validRound> <value> (<h> <r> <sender> <id>)*   -- ProcessSync
   wal  <mid> start <h> | prop … | pv … | pc … | to …                          -- ProcessWAL
   start <mid> <round>
@@ -34,14 +34,14 @@ def pseudoSender : Nat := 1048576
 
 /-- Validator set of height `h`: `powers`/`total`, or — for odd heights when `altPowers` is not
 empty — `altPowers`/`altTotal` (validator sets that change from height to height). With `shipped`
-the shape of the only `Validators` in the repository (`consensus/mock.go`): power 1 for EVERY
-address, power `total` for the sync pseudo-sender. -/
+the shape of the only `Validators` in the repository (`consensus/mock.go` since b29aadf): power 1 for
+the members, 0 for every other address, power `total` for the sync pseudo-sender. -/
 def mkEnv (total rot vMod vRem vBase vStep pMul : Nat) (powers tbl : List Nat) (altTotal : Nat)
-    (altPowers : List Nat) (shipped : Bool) : Env :=
+    (altPowers : List Nat) (shipped : Bool) (nonMember : Nat := 0) : Env :=
   let useAlt (h : Nat) : Bool := !altPowers.isEmpty && h % 2 == 1
   { totalPower := fun h => if useAlt h then altTotal else total,
     power := fun h a =>
-      if shipped then (if a = pseudoSender then total else 1)
+      if shipped then (if a = pseudoSender then total else if a < powers.length then 1 else nonMember)
       else
         let ps := if useAlt h then altPowers else powers
         if a < ps.length then ps.getD ((a + rot * h) % ps.length) 0 else 0,
@@ -182,7 +182,7 @@ def step (st : DState) (line : String) : DState × String :=
           parseList altPowers, shipped.toNat? with
     | some mid, some node, some h, some total, some rot, some vMod, some vRem, some vBase,
       some vStep, some pMul, some powers, some tbl, some altTotal, some altPowers, some shipped =>
-      let env := mkEnv total rot vMod vRem vBase vStep pMul powers tbl altTotal altPowers (shipped != 0)
+      let env := mkEnv total rot vMod vRem vBase vStep pMul powers tbl altTotal altPowers (shipped != 0) (shipped - 1)
       (putSlot st ⟨mid, env, Machine.new env node h⟩, "ok")
     | _, _, _, _, _, _, _, _, _, _, _, _, _, _, _ => (st, "bad-op")
   | ["start", mid, r] =>
